@@ -172,6 +172,12 @@ def strip_comments(src):
         elif src.startswith('--', i):
             while i < n and src[i] != '\n':
                 i += 1
+        elif src[i] == "'" and i + 2 < n and src[i + 2] == "'" and src[i + 1] != '\\':
+            out.append("'c'")  # char literal such as '"' must not open a string
+            i += 3
+        elif src[i] == "'" and i + 3 < n and src[i + 1] == '\\' and src[i + 3] == "'":
+            out.append("'c'")
+            i += 4
         elif src[i] == '"':
             j = i + 1
             while j < n and src[j] != '"':
